@@ -83,6 +83,11 @@ theorem shapeStat : ∀ (st : Stat) (env : Env) (s : RefSt), Shape s (refStat en
   | .callS f args, env, s => by
     simp only [refStat]
     exact (((Shape.use s env f).then_skip 1).trans (shapeExprs args env _)).then_skip 1
+  | .loclAttr n val, env, s => by
+    simp only [refStat]; exact (Shape.skip s 6).trans (shapeExpr val env _)
+  | .method obj k colon ps body, env, s => by
+    simp only [refStat]
+    exact ((((Shape.skip s 1).trans (Shape.use _ env obj)).then_skip _).trans (shapeBlock body _ _)).then_skip 1
 theorem shapeBlock : ∀ (b : List Stat) (env : Env) (s : RefSt), Shape s (refBlock env s b).1
   | [], env, s => by simp only [refBlock]; exact Shape.refl s
   | st :: rest, env, s => by
@@ -290,6 +295,28 @@ theorem recStat : ∀ (st : Stat) (env : Env) (s : RefSt), Fits G s (refStat env
     simp only [refStat] at h ⊢
     have ha := h.sub ((Shape.use s env f).then_skip 1) (Shape.skip _ 1)
     exact ⟨recExprs args env _ ha he (hr.use he f), he⟩
+  | .loclAttr n val, env, s, h, he, hr => by
+    simp only [refStat] at h ⊢
+    have hg := h.skipGap 1 6 (shapeExpr val env _)
+    have hv := h.sub (Shape.skip s 6) (Shape.refl _)
+    exact ⟨recExpr val env _ hv he hr, he.cons n _ (hg _ (by omega) (by omega))⟩
+  | .method obj k colon ps body, env, s, h, he, hr => by
+    simp only [refStat] at h ⊢
+    have hb := h.sub (((Shape.skip s 1).trans (Shape.use _ env obj)).then_skip (2 * k + 2 + ps.length)) (Shape.skip _ 1)
+    have hgap : Fits G ((s.skip 1).use env obj) (((s.skip 1).use env obj).skip (2 * k + 2 + ps.length)) :=
+      h.sub ((Shape.skip s 1).trans (Shape.use _ env obj)) ((shapeBlock body _ _).then_skip 1)
+    have hr1 : RecOK G ((s.skip 1).use env obj).out := RecOK.use (s := s.skip 1) hr he obj
+    have heS : EnvOK G (selfEnv colon (s.pos + 4 * k) env) := by
+      cases colon
+      · exact he
+      · by_cases hk : k = 0
+        · subst hk
+          have hg0 : Fits G s (s.skip 1) := h.sub (Shape.refl s)
+            ((((Shape.use (s.skip 1) env obj)).then_skip _).trans (shapeBlock body _ _) |>.then_skip 1)
+          exact he.cons selfName _ (hg0.gap rfl _ (by simp) (by simp))
+        · exact he.cons selfName _ (hgap.gap rfl _ (by simp; omega) (by simp; omega))
+    exact ⟨(recBlock body _ _ hb (EnvOK.bindNames ps _ (s.pos + 6 + 4 * k) heS
+      (fun q h1 h2 => hgap.gap rfl q (by simp; omega) (by simp; omega))) hr1).1, he⟩
 theorem recBlock : ∀ (b : List Stat) (env : Env) (s : RefSt), Fits G s (refBlock env s b).1 → EnvOK G env →
     RecOK G s.out → RecOK G (refBlock env s b).1.out ∧ EnvOK G (refBlock env s b).2
   | [], env, s, h, he, hr => by simp only [refBlock]; exact ⟨hr, he⟩
@@ -540,6 +567,30 @@ theorem substStat_eq : ∀ (st : Stat) (env : Env) (s : RefSt) (pos : Nat), pos 
     have ha := h.sub ((Shape.use s env f).then_skip 1) (Shape.skip _ 1)
     simp only [substStat, alphaStat, refStat, use_eq E d new hE hN hd hf]
     rw [substExprs_eq args env _ (s.pos + 4) (by simp) ha]
+    refine ⟨?_, ?_⟩ <;> first | trivial | rfl
+  | .loclAttr n val, env, s, pos, hp, h => by
+    subst hp
+    simp only [refStat] at h
+    have hn := binder_gap E d new hE hN hd h 1 6 (shapeExpr val env _) n (by omega)
+    have hv := h.sub (Shape.skip s 6) (Shape.refl _)
+    simp only [substStat, alphaStat, refStat]
+    rw [show s.pos + 2 = s.pos + 2 * 1 from rfl, hn, substExpr_eq val env _ (s.pos + 12) (by simp) hv]
+    refine ⟨?_, ?_⟩ <;> first | trivial | rfl
+  | .method obj k colon ps body, env, s, pos, hp, h => by
+    subst hp
+    simp only [refStat] at h
+    have hu : Fits G (s.skip 1) ((s.skip 1).use env obj) :=
+      h.sub (Shape.skip s 1) (((Shape.skip _ (2 * k + 2 + ps.length)).trans (shapeBlock body _ _)).then_skip 1)
+    have hb := h.sub (((Shape.skip s 1).trans (Shape.use _ env obj)).then_skip (2 * k + 2 + ps.length)) (Shape.skip _ 1)
+    have hgap : Fits G ((s.skip 1).use env obj) (((s.skip 1).use env obj).skip (2 * k + 2 + ps.length)) :=
+      h.sub ((Shape.skip s 1).trans (Shape.use _ env obj)) ((shapeBlock body _ _).then_skip 1)
+    have hg : substNames E new (s.pos + 6 + 4 * k) ps = alphaBinders d new (s.pos + 6 + 4 * k) ps := by
+      apply binders_eq E d new hE hN hd
+      intro q h1 h2
+      exact hgap.gap rfl q (by simp; omega) (by simp; omega)
+    simp only [substStat, alphaStat, refStat]
+    rw [show s.pos + 2 = (s.skip 1).pos from rfl, use_eq E d new hE hN hd hu, hg]
+    rw [(substBlock_eq body _ _ (s.pos + 2 * (4 + 2 * k + ps.length)) (by simp; omega) hb).1]
     refine ⟨?_, ?_⟩ <;> first | trivial | rfl
 theorem substBlock_eq : ∀ (b : List Stat) (env : Env) (s : RefSt) (pos : Nat), pos = s.pos → Fits G s (refBlock env s b).1 →
     substBlock E new pos b = (alphaBlock d new env pos b).1 ∧ (alphaBlock d new env pos b).2 = (refBlock env s b).2
